@@ -91,14 +91,14 @@ def run(ctx):
   rng = ctx.rng
   ctx.rule = ("6 supervised estimators x {default, explicit n_constraints / n_chunks / chunk_size / k_genuine / k_impostor} x "
               "integer seeds x label layouts {fully labelled, unknown labels (-1) at random positions, at the front, at the "
-              "back}: components_ of X_Supervised.fit(X, y) must be bit-identical to the base learner fitted on the tuples "
+              "back} x {distinct samples, a few samples repeated within a class}: components_ of X_Supervised.fit(X, y) must be bit-identical to the base learner fitted on the tuples "
               "that the public Constraints helper derives from y with the same random_state; no constraint may use a point "
               "whose label is -1; the derived tuples agree with the labels (similar = equal known labels, dissimilar = different).  non-trivial = unknown labels present or non-default parameters.")
   ctx.trusted = ["Coq 8.16.1 kernel", "translator tools/translate_supervised.py (canonical statement spelling)",
                  "C07's model of Constraints (re-exported clauses)", "determinism of the solvers (C17)"]
   ctx.build_property(gen_needed=['Src_supervised'])
   layouts = ['full', 'random_unknown', 'front_unknown', 'back_unknown']
-  reps = 6 if thorough else 1
+  reps = 8 if thorough else 2
   for name in ['ITML_Supervised', 'MMC_Supervised', 'SDML_Supervised', 'LSML_Supervised', 'RCA_Supervised', 'SCML_Supervised']:
     for rep in range(reps):
       for layout in layouts:
@@ -106,6 +106,17 @@ def run(ctx):
         data = fits.make_data(rng, n_classes=ncls, n_per_class=[int(rng.integers(7, 12)) for _ in range(ncls)])
         X, y = data['X'], data['y'].copy()
         n = len(y)
+        # repeated samples (the same row more than once within a class), as in iris
+        dup = bool(rng.random() < 0.5)
+        if dup:
+          X = X.copy()
+          for _ in range(int(rng.integers(2, 5))):
+            c = int(rng.choice(np.unique(y)))
+            i, j = rng.choice(np.flatnonzero(y == c), size=2, replace=False)
+            X[j] = X[i]
+          data = dict(data)
+          data['X'] = X
+        ctx.hist('repeated_rows', dup)
         if layout == 'random_unknown':
           y[rng.random(n) < 0.25] = -1
         elif layout == 'front_unknown':
@@ -137,6 +148,18 @@ def run(ctx):
         ctx.count('supervised_vs_base', 1)
         ctx.seen((name, layout, rep, variant), layout != 'full' or variant == 1)
         ctx.hist('layout', layout)
+        exs = []
+        for side in (lambda: fits.make_estimator(name, kw).fit(X, y), lambda: via_constraints(name, kw, X, y)):
+          try:
+            with warnings.catch_warnings():
+              warnings.simplefilter('ignore')
+              side()
+            exs.append(None)
+          except Exception as ex0:
+            exs.append(type(ex0).__name__)
+        if dup and exs[0] is not None and exs[0] == exs[1]:
+          ctx.count('supervised_vs_base', 0, skipped=1)      # both sides reject the same (collapsed) tuples
+          continue
         try:
           with warnings.catch_warnings():
             warnings.simplefilter('ignore')
